@@ -28,6 +28,7 @@ import (
 	"net"
 	"os"
 	"slices"
+	"strconv"
 	"strings"
 	"sync"
 	"sync/atomic"
@@ -483,7 +484,8 @@ func (e *env) subStall(part, dim string, desc map[string]any) {
 	if frozen && where != "" {
 		e.stalls.Add(1)
 		e.m.Eval()
-		e.m.Violation("stall:"+part+":"+where+":"+dim, map[string]any{"case": desc, "dump": dump})
+		desc["dim"] = dim
+		e.m.Violation("stall:"+part+":"+where, map[string]any{"case": desc, "dump": dump})
 		return
 	}
 	e.m.Inconclusive(fmt.Sprintf("%s case (%s) exceeded the watchdog (frozen=%v where=%q)", part, dim, frozen, where))
@@ -495,6 +497,9 @@ func (e *env) subStall(part, dim string, desc map[string]any) {
 func (e *env) watchdog(normal time.Duration) time.Duration {
 	if e.stalls.Load() > 0 {
 		return 25 * time.Second
+	}
+	if s, err := strconv.Atoi(os.Getenv("SSHINTEROP_WATCHDOG_S")); err == nil && s > 0 {
+		return time.Duration(s) * time.Second // development aid (mutant trials)
 	}
 	return normal
 }
@@ -681,12 +686,13 @@ func (e *env) runPeerCase(sc subPeerCase, i int64, r *rand.Rand) {
 		bad("exit-status", nil)
 		ok = false
 	}
+	// channel-layer findings are not specific to the algorithms of the case
 	if prep.WindowOverrun > 0 {
-		bad("window-overrun", nil)
+		m.Violation("go-client-vs-sshref:window-overrun", witness(nil))
 		ok = false
 	}
 	if prep.PacketOverrun > 0 {
-		bad("max-packet-overrun", nil)
+		m.Violation("go-client-vs-sshref:max-packet-overrun", witness(nil))
 		ok = false
 	}
 	if !ok {
@@ -1082,9 +1088,6 @@ func (e *env) runTapCase(tc subTapCase, i int64, r *rand.Rand) {
 		return
 	}
 	m.Count("sub_tap_ok", 1)
-	if os.Getenv("SSHINTEROP_DEBUG") != "" && len(ks) < 2 {
-		fmt.Printf("NOREKEY %v\n", desc)
-	}
 	m.Count("sub_tap_ok_"+tc.class, 1)
 	m.Count("sub_tap_key_exchanges", len(ks))
 	m.Count("sub_tap_exchange_hashes_recomputed", nh)
